@@ -46,25 +46,38 @@ theorem stripComments_lines (s : String) (ls : List (List Char)) (hne : ls ≠ [
   rw [stripComments_toList, h, List.splitOn_intercalate _ hnl hne]
 
 theorem squeeze_toList (s : String) :
-    (squeeze s).toList = s.toList.filter (fun c => c != ' ' && c != '\n' && c != '\t') := by
+    (squeeze s).toList = s.toList.filter (fun c => !pySpace c) := by
   unfold squeeze
   rw [String.toList_ofList]
 
-/-- characters that `squeeze` keeps -/
-def Solid (l : List Char) : Prop := ∀ x ∈ l, x ≠ ' ' ∧ x ≠ '\n' ∧ x ≠ '\t' ∧ x ≠ ','
+/-- `pySpace` on the code point -/
+theorem pySpace_iff (c : Char) : pySpace c = true ↔
+    ((9 ≤ c.toNat ∧ c.toNat ≤ 13) ∨ (28 ≤ c.toNat ∧ c.toNat ≤ 32) ∨ c.toNat = 133 ∨ c.toNat = 160 ∨ c.toNat = 5760 ∨
+      (8192 ≤ c.toNat ∧ c.toNat ≤ 8202) ∨ c.toNat = 8232 ∨ c.toNat = 8233 ∨ c.toNat = 8239 ∨ c.toNat = 8287 ∨
+      c.toNat = 12288) := by
+  simp only [pySpace, Bool.or_eq_true, Bool.and_eq_true, decide_eq_true_eq, beq_iff_eq]
+  omega
+
+/-- a character below `'{'` and above `' '` (in particular every identifier character) is no white space -/
+theorem pySpace_false_of_range {c : Char} (h1 : 33 ≤ c.toNat) (h2 : c.toNat ≤ 126) : pySpace c = false := by
+  cases h : pySpace c with
+  | false => rfl
+  | true => rw [pySpace_iff] at h; omega
+
+/-- characters that `squeeze` keeps (no white space in the sense of `str.isspace`) and that are no separator -/
+def Solid (l : List Char) : Prop := ∀ x ∈ l, pySpace x = false ∧ x ≠ ','
 
 theorem filter_solid {l : List Char} (h : Solid l) :
-    l.filter (fun c => c != ' ' && c != '\n' && c != '\t') = l := by
+    l.filter (fun c => !pySpace c) = l := by
   rw [List.filter_eq_self]
   intro x hx
-  obtain ⟨h1, h2, h3, _⟩ := h x hx
-  simp [h1, h2, h3]
+  simp [(h x hx).1]
 
 theorem squeeze_solid {s : String} (h : Solid s.toList) : squeeze s = s := by
   rw [← String.toList_inj, squeeze_toList, filter_solid h]
 
 theorem filter_commas : ∀ (ls : List (List Char)), (∀ l ∈ ls, Solid l) →
-    ([',', ' '].intercalate ls).filter (fun c => c != ' ' && c != '\n' && c != '\t') = [','].intercalate ls
+    ([',', ' '].intercalate ls).filter (fun c => !pySpace c) = [','].intercalate ls
   | [], _ => rfl
   | [l], h => by
     simp only [List.intercalate, List.intersperse_singleton, List.flatten_cons, List.flatten_nil, List.append_nil]
@@ -74,7 +87,8 @@ theorem filter_commas : ∀ (ls : List (List Char)), (∀ l ∈ ls, Solid l) →
     simp only [List.intercalate] at ih ⊢
     simp only [List.intersperse_cons_cons, List.flatten_cons, List.filter_append] at ih ⊢
     rw [ih, filter_solid (h l (by simp))]
-    rfl
+    have e : List.filter (fun c => !pySpace c) [',', ' '] = [','] := by decide
+    rw [e]
 
 /-- the operand list of a gate line is split back into the operands -/
 theorem split_operands (ins : List String) (hne : ins ≠ []) (h : ∀ i ∈ ins, Solid i.toList) :
@@ -93,7 +107,7 @@ theorem split_operands (ins : List String) (hne : ins ≠ []) (h : ∀ i ∈ ins
   · intro l hl
     obtain ⟨i, hi, rfl⟩ := List.mem_map.mp hl
     intro hm
-    exact (h i hi _ hm).2.2.2 rfl
+    exact (h i hi _ hm).2 rfl
   · simpa using hne
 
 theorem split_one (n : String) (h : Solid n.toList) : (squeeze n).splitOn "," = [n] := by
